@@ -8,13 +8,15 @@
 //!   src,dop,lp,path,origin,med,lasn,oid,bgpid,cl,peer,extra
 //!   src    e|i                      learned over eBGP / iBGP
 //!   dop    -|u32                    TiebreakerInfo.degree_of_preference
-//!   lp     -|u32                    LOCAL_PREF attribute
+//!   lp     -|!|u32                  LOCAL_PREF attribute (`!` here and in med / oid / cl: the type code holds a
+//!                                   `PathAttribute::Invalid`, as after a malformed UPDATE; `get` then finds nothing)
 //!   path   -|!|e|hop.hop...         AS_PATH absent | key 2 holds an Invalid attribute | empty | hops
 //!          hop = u32 | S<a+b..> | Q<a+b..> | C<a+b..> | D<a+b..>   (AS_SET, AS_SEQUENCE segment kept
-//!          as one hop, AS_CONFED_SEQUENCE, AS_CONFED_SET)
+//!          as one hop, AS_CONFED_SEQUENCE, AS_CONFED_SET; every kind may be empty: an empty AS_SEQUENCE
+//!          segment hop is what `AsPath::new(vec![2, 0], true).to_hop_path()` yields)
 //!   origin -|!|u8                   ORIGIN absent | key 1 holds an Invalid attribute | OriginType::from(n)
-//!   med    -|u32    lasn u32    oid -|u32 (ORIGINATOR_ID)    bgpid u32
-//!   cl     -|n (0..=64)             CLUSTER_LIST with n entries
+//!   med    -|!|u32    lasn u32    oid -|!|u32 (ORIGINATOR_ID)    bgpid u32
+//!   cl     -|!|n (0..=64)           CLUSTER_LIST with n entries
 //!   peer   4:u32 | 6:u128           peer address
 //!   extra  u32                      0 = nothing, n = NEXT_HOP n (content the comparison never reads)
 use crate::common::*;
@@ -74,6 +76,9 @@ pub struct RouteSpec {
     pub peer_v6: bool,
     pub peer: u128,
     pub extra: u32,
+    /// bit 0 / 1 / 2 / 3: the LOCAL_PREF / MED / ORIGINATOR_ID / CLUSTER_LIST type code holds an
+    /// `Invalid` attribute (the field itself is then `None`: the comparison finds no such attribute)
+    pub bogus: u8,
 }
 
 /// strict decimal: digits only, 1..=39 of them (the Lean side does the same)
@@ -84,6 +89,11 @@ pub fn nat(s: &str, max: u128) -> Option<u128> {
 }
 fn opt_u32(s: &str) -> Option<Option<u32>> {
     if s == "-" { Some(None) } else { nat(s, u32::MAX as u128).map(|v| Some(v as u32)) }
+}
+/// `!` = the slot holds an Invalid attribute: no value, and the bit is recorded in `mask`
+fn slot_u32(s: &str, max: u128, bit: u8, mask: &mut u8) -> Option<Option<u32>> {
+    if s == "!" { *mask |= bit; return Some(None); }
+    if s == "-" { Some(None) } else { nat(s, max).map(|v| Some(v as u32)) }
 }
 
 fn parse_hop(s: &str) -> Option<HopSpec> {
@@ -96,8 +106,6 @@ fn parse_hop(s: &str) -> Option<HopSpec> {
         for a in rest.split('+') { asns.push(nat(a, u32::MAX as u128)? as u32); }
     }
     if asns.len() > 255 { return None; }
-    // an AS_SEQUENCE segment can only be obtained from a parsed path, which has no empty segments
-    if (c == 'Q' || c == 'q') && asns.is_empty() { return None; }
     // two-octet segments hold two-octet AS numbers
     if c.is_ascii_lowercase() && asns.iter().any(|a| *a > 65535) { return None; }
     Some(HopSpec::Seg(c, asns))
@@ -108,7 +116,8 @@ pub fn parse_route(s: &str) -> Option<RouteSpec> {
     if f.len() != 12 { return None; }
     let ibgp = match f[0] { "e" => false, "i" => true, _ => return None };
     let dop = opt_u32(f[1])?;
-    let lp = opt_u32(f[2])?;
+    let mut bogus = 0u8;
+    let lp = slot_u32(f[2], u32::MAX as u128, 1, &mut bogus)?;
     let path = match f[3] {
         "-" => Slot::Absent,
         "!" => Slot::Bogus,
@@ -125,18 +134,18 @@ pub fn parse_route(s: &str) -> Option<RouteSpec> {
         "!" => Slot::Bogus,
         o => Slot::Val(nat(o, 255)? as u8),
     };
-    let med = opt_u32(f[5])?;
+    let med = slot_u32(f[5], u32::MAX as u128, 2, &mut bogus)?;
     let lasn = nat(f[6], u32::MAX as u128)? as u32;
-    let oid = opt_u32(f[7])?;
+    let oid = slot_u32(f[7], u32::MAX as u128, 4, &mut bogus)?;
     let bgpid = nat(f[8], u32::MAX as u128)? as u32;
-    let cl = if f[9] == "-" { None } else { Some(nat(f[9], 64)? as u32) };
+    let cl = slot_u32(f[9], 64, 8, &mut bogus)?;
     let (peer_v6, peer) = match f[10].split_once(':')? {
         ("4", a) => (false, nat(a, u32::MAX as u128)?),
         ("6", a) => (true, nat(a, u128::MAX)?),
         _ => return None,
     };
     let extra = nat(f[11], u32::MAX as u128)? as u32;
-    Some(RouteSpec { ibgp, dop, lp, path, origin, med, lasn, oid, bgpid, cl, peer_v6, peer, extra })
+    Some(RouteSpec { ibgp, dop, lp, path, origin, med, lasn, oid, bgpid, cl, peer_v6, peer, extra, bogus })
 }
 
 fn show_opt(o: Option<u32>) -> String { o.map(|v| v.to_string()).unwrap_or("-".into()) }
@@ -152,14 +161,21 @@ pub fn show_route(r: &RouteSpec) -> String {
         }).collect::<Vec<_>>().join("."),
     };
     let origin = match &r.origin { Slot::Absent => "-".into(), Slot::Bogus => "!".into(), Slot::Val(o) => o.to_string() };
+    let slot = |o: Option<u32>, bit: u8| if r.bogus & bit != 0 { "!".to_string() } else { show_opt(o) };
     format!("{},{},{},{},{},{},{},{},{},{},{}:{},{}",
-        if r.ibgp { "i" } else { "e" }, show_opt(r.dop), show_opt(r.lp), path, origin, show_opt(r.med), r.lasn,
-        show_opt(r.oid), r.bgpid, show_opt(r.cl), if r.peer_v6 { 6 } else { 4 }, r.peer, r.extra)
+        if r.ibgp { "i" } else { "e" }, show_opt(r.dop), slot(r.lp, 1), path, origin, slot(r.med, 2), r.lasn,
+        slot(r.oid, 4), r.bgpid, slot(r.cl, 8), if r.peer_v6 { 6 } else { 4 }, r.peer, r.extra)
 }
 
 // ------------------------------------------------- building the real thing
 
 fn seq_segment(asns: &[u32]) -> Segment<Vec<u8>> {
+    // an empty AS_SEQUENCE segment: only from a parsed path that contains one
+    if asns.is_empty() {
+        let ap = AsPath::new(vec![2u8, 0], true).unwrap();
+        let seg = ap.segments().next().unwrap();
+        return seg.octets_into();
+    }
     // the only public way to an AS_SEQUENCE `Segment`: compose a path and read its first segment back
     let hp = HopPath::from(asns.iter().map(|a| Asn::from_u32(*a)).collect::<Vec<Asn>>());
     let ap: AsPath<Vec<u8>> = hp.to_as_path().unwrap();
@@ -214,6 +230,10 @@ pub fn build(r: &RouteSpec) -> (PaMap, TiebreakerInfo) {
     if let Some(v) = r.lp { m.set(LocalPref(v)); }
     if let Some(v) = r.med { m.set(MultiExitDisc(v)); }
     if let Some(v) = r.oid { m.set(OriginatorId(Ipv4Addr::from(v))); }
+    // what PaMap::from_update_pdu stores for a received LOCAL_PREF / MED / ORIGINATOR_ID / CLUSTER_LIST of a wrong length
+    for (bit, flags, code, val) in [(1u8, 0x40u8, 5u8, vec![0u8, 0]), (2, 0x80, 4, vec![0, 0]), (4, 0x80, 9, vec![1, 2, 3]), (8, 0x80, 10, vec![1, 2, 3])] {
+        if r.bogus & bit != 0 { m.add_attribute(PathAttribute::Invalid(flags.into(), code, val)).unwrap(); }
+    }
     if let Some(n) = r.cl {
         let mut bytes = Vec::new();
         for i in 0..n { bytes.extend_from_slice(&(0x0a000001u32 + i).to_be_bytes()); }
@@ -232,25 +252,30 @@ pub fn build(r: &RouteSpec) -> (PaMap, TiebreakerInfo) {
     (m, tb)
 }
 
+/// `ok` or `refused`.  The property says WHICH routes are refused, not with which error: the reason
+/// (a private enum behind `DecisionError`, visible only through its Display / Debug text) is not observed.
 pub fn refusal<OS: OrdStrat>(m: &PaMap, tb: TiebreakerInfo) -> &'static str {
-    match OrdRoute::<OS>::try_new(m, tb) {
-        Ok(_) => "ok",
-        Err(e) => match e.to_string().as_str() {
-            "missing mandatory ORIGIN" => "no-origin",
-            "missing mandatory AS_PATH" => "no-path",
-            "expected non-empty AS_PATH" => "no-neighbour",
-            _ => "other",
-        },
-    }
+    match OrdRoute::<OS>::try_new(m, tb) { Ok(_) => "ok", Err(_) => "refused" }
 }
 
 pub fn ord(o: Ordering) -> &'static str { match o { Ordering::Less => "lt", Ordering::Equal => "eq", Ordering::Greater => "gt" } }
 
+/// The routes are compared twice: each on its own `PaMap` allocation, and with equal attribute maps
+/// interned to ONE object (routes of a RIB that shares attribute sets).  The reply is the common
+/// result, or both joined by ` | shared `.
 fn cmp_line<OS: OrdStrat>(specs: &[RouteSpec]) -> String {
     let built: Vec<(PaMap, TiebreakerInfo)> = specs.iter().map(build).collect();
     let why: Vec<&str> = built.iter().map(|(m, t)| refusal::<OS>(m, *t)).collect();
     if why.iter().any(|w| *w != "ok") { return format!("refused {}", why.join(" ")); }
-    let rs: Vec<OrdRoute<OS>> = built.iter().map(|(m, t)| OrdRoute::try_new(m, *t).unwrap()).collect();
+    let own: Vec<&PaMap> = built.iter().map(|(m, _)| m).collect();
+    let shared: Vec<&PaMap> = built.iter().map(|(m, _)| &built.iter().find(|(o, _)| o == m).unwrap().0).collect();
+    let a = cmp_on::<OS>(&built, &own);
+    let b = cmp_on::<OS>(&built, &shared);
+    if a == b { a } else { format!("{} | shared {}", a, b) }
+}
+
+fn cmp_on<OS: OrdStrat>(built: &[(PaMap, TiebreakerInfo)], maps: &[&PaMap]) -> String {
+    let rs: Vec<OrdRoute<OS>> = built.iter().zip(maps).map(|((_, t), m)| OrdRoute::try_new(*m, *t).unwrap()).collect();
     match rs.len() {
         2 => format!("{} {} {} {}", ord(rs[0].cmp(&rs[1])), if rs[0] == rs[1] { "same" } else { "diff" },
             ord(rs[1].cmp(&rs[0])), ord(rs[0].partial_cmp(&rs[1]).unwrap())),
@@ -301,6 +326,22 @@ pub fn ref_eligible(r: &RouteSpec) -> bool {
         })
 }
 
+/// Routes of which the property does not say that they are accepted: an ORIGIN value the RFC does not
+/// define (> 2; RFC 7606 would have it treated as withdrawn) or an optional attribute whose type code holds
+/// an Invalid attribute.  Refusing such a route is accepted; when it is accepted it is compared as the
+/// reference says (ORIGIN by number, the Invalid attribute as absent).
+pub fn may_be_refused(r: &RouteSpec) -> bool { matches!(r.origin, Slot::Val(o) if o > 2) || r.bogus != 0 }
+
+/// "refused at construction": `ok` only for eligible routes, `refused` for every route lacking ORIGIN /
+/// AS_PATH / eBGP neighbour (and tolerated where `may_be_refused`)
+pub fn judge_construction(r: &RouteSpec, reply: &str) -> Result<(), String> {
+    match reply {
+        "ok" => if ref_eligible(r) { Ok(()) } else { Err("a route lacking ORIGIN / AS_PATH / eBGP neighbour AS was accepted".into()) },
+        "refused" => if !ref_eligible(r) || may_be_refused(r) { Ok(()) } else { Err("an eligible route was refused".into()) },
+        x => Err(format!("unexpected construction reply {}", x)),
+    }
+}
+
 /// The tie-breaking procedure of 9.1.2.2 run on the candidate set {a, b}:
 /// each step removes candidates from consideration; whoever is left alone is
 /// preferred.  `med` = step (c) enabled.
@@ -347,7 +388,7 @@ fn parse_ord(s: &str) -> Option<Ordering> {
 
 pub fn base_route() -> RouteSpec {
     RouteSpec { ibgp: false, dop: None, lp: None, path: Slot::Val(vec![HopSpec::Asn(10), HopSpec::Asn(20)]), origin: Slot::Val(0),
-        med: None, lasn: 65000, oid: None, bgpid: 5, cl: None, peer_v6: false, peer: 0x0a000001, extra: 0 }
+        med: None, lasn: 65000, oid: None, bgpid: 5, cl: None, peer_v6: false, peer: 0x0a000001, extra: 0, bogus: 0 }
 }
 
 pub fn path_of(s: &str) -> Slot<Vec<HopSpec>> {
@@ -362,7 +403,7 @@ fn lattice(srcs: &[bool], dops: &[Option<u32>], lps: &[Option<u32>], paths: &[&s
     let mut v = Vec::new();
     for &ibgp in srcs { for &dop in dops { for &lp in lps { for p in paths { for &o in origins { for &med in meds {
     for &(oid, bgpid) in ids { for &cl in cls { for &(peer_v6, peer) in peers { for &lasn in lasns {
-        v.push(RouteSpec { ibgp, dop, lp, path: path_of(p), origin: Slot::Val(o), med, lasn, oid, bgpid, cl, peer_v6, peer, extra: 0 });
+        v.push(RouteSpec { ibgp, dop, lp, path: path_of(p), origin: Slot::Val(o), med, lasn, oid, bgpid, cl, peer_v6, peer, extra: 0, bogus: 0 });
     } } } } } } } } } }
     v
 }
@@ -380,7 +421,7 @@ pub fn random_route(rng: &mut Rng) -> RouteSpec {
             0 => HopSpec::Seg('S', (0..rng.usize(0, 3)).map(|_| asn(rng)).collect()),
             1 => HopSpec::Seg('C', (0..rng.usize(0, 3)).map(|_| asn(rng)).collect()),
             2 => HopSpec::Seg('D', (0..rng.usize(0, 3)).map(|_| asn(rng)).collect()),
-            3 if rng.chance(1, 3) => HopSpec::Seg('Q', (0..rng.usize(1, 3)).map(|_| asn(rng)).collect()),
+            3 if rng.chance(1, 3) => { let lo = if rng.chance(1, 6) { 0 } else { 1 }; HopSpec::Seg('Q', (0..rng.usize(lo, 3)).map(|_| asn(rng)).collect()) }
             _ => HopSpec::Asn(asn(rng)),
         });
         // the same segment as a two-octet session delivers it
@@ -407,8 +448,15 @@ pub fn random_route(rng: &mut Rng) -> RouteSpec {
         peer_v6: rng.chance(1, 3),
         peer: 0,
         extra: if rng.chance(1, 4) { rng.range(1, 3) as u32 } else { 0 },
+        bogus: 0,
     };
     let mut r = r;
+    // now and then an optional attribute's type code holds an Invalid attribute
+    if rng.chance(1, 12) {
+        let bit = 1u8 << rng.below(4);
+        r.bogus |= bit;
+        match bit { 1 => r.lp = None, 2 => r.med = None, 4 => r.oid = None, _ => r.cl = None }
+    }
     r.peer = if r.peer_v6 { *rng.pick(&[1u128, 2, 256, 0xffffffff, 1 << 64, 1 << 120, (1 << 120) + 1, u128::MAX]) }
              else { *rng.pick(&[1u128, 2, 256, 0x0a000001, 0x01000000, 0xffffffff]) };
     r
@@ -428,11 +476,21 @@ impl Prop for C10 {
             } }
         } }
         for s in STRATS { for src in ["e", "i"] { v.push(format!("wire-malformed {} {}", s, src)); } }
+        // an empty AS_SEQUENCE segment hop names no neighbour; Invalid attributes under the optional type codes
+        for s in STRATS { for src in ["e", "i"] {
+            for path in ["Q", "q", "Q.10", "10.Q"] { v.push(format!("try {} {},-,-,{},0,-,65000,-,5,-,4:1,0", s, src, path)); }
+            for (lp, med, oid, cl) in [("!", "-", "-", "-"), ("-", "!", "-", "-"), ("-", "-", "!", "-"), ("-", "-", "-", "!"), ("!", "!", "!", "!")] {
+                v.push(format!("try {} {},-,{},10.20,0,{},65000,{},5,{},4:1,0", s, src, lp, med, oid, cl));
+                // ... compared as if the attribute were absent
+                v.push(format!("cmp {} {},-,{},10.20,0,{},65000,{},5,{},4:1,0 {},-,7,10.20,0,7,65000,7,5,1,4:1,0", s, src, lp, med, oid, cl, src));
+                v.push(format!("cmp {} {},-,{},10.20,0,{},65000,{},5,{},4:1,0 {},-,-,10.20,0,-,65000,-,5,-,4:1,0", s, src, lp, med, oid, cl, src));
+            }
+        } }
         // ---- hop_count_path_selection / neighbor_path_selection
         for p in ["e", "10", "10.20.30", "S10+20", "S", "S10.20", "10.S20+30.40", "C10+20.30", "D10+20.30", "C10.D20.S30.40",
                   "Q10+20", "Q10+20.30", "30.Q10+20", "10.10.10.10", "C", "D",
                   "q10", "q10+20", "q10+20+30", "q10+20+30+40+50.60", "30.q10+20", "q10+20.Q30+40", "s10+20", "s", "c10+20.30", "d10+20.30",
-                  "s10+20.q30+40+50", "q65535+1.2"] {
+                  "s10+20.q30+40+50", "q65535+1.2", "Q", "q", "Q.10", "q.Q10", "10.Q.20"] {
             v.push(format!("hops {}", p));
         }
         // ---- exhaustive lattices, all ordered pairs (incl. a route with itself)
@@ -524,27 +582,32 @@ impl Prop for C10 {
     fn oracle(&self, line: &str, reply: &str) -> Result<(), String> {
         if reply == "bad-op" { return Ok(()); }
         if reply == "panic" { return Err("panic".into()); }
+        // the same routes on separate and on shared attribute maps: each presentation is judged
+        if let Some((own, shared)) = reply.split_once(" | shared ") {
+            self.oracle(line, own)?;
+            return self.oracle(line, shared).map_err(|e| format!("when routes with equal attributes share one PaMap object: {}", e));
+        }
         let w: Vec<&str> = line.split(' ').collect();
         let r: Vec<&str> = reply.split(' ').collect();
         match w.as_slice() {
             ["try", _, a] => {
                 let a = parse_route(a).unwrap();
-                // refused exactly when ORIGIN or AS_PATH is lacking or an eBGP route has no neighbour AS
-                if (reply == "ok") != ref_eligible(&a) {
-                    return Err(format!("construction says `{}` but the route is {}eligible", reply, if ref_eligible(&a) { "" } else { "not " }));
-                }
-                Ok(())
+                // refused when ORIGIN or AS_PATH is lacking or an eBGP route has no neighbour AS; accepted otherwise
+                // (either, where the property is silent: undefined ORIGIN value, Invalid optional attribute)
+                judge_construction(&a, reply)
             }
             ["cmp", s, a, b] => {
                 let (a, b) = (parse_route(a).unwrap(), parse_route(b).unwrap());
                 let el = [ref_eligible(&a), ref_eligible(&b)];
                 if r[0] == "refused" {
-                    for i in 0..2 { if (r[1 + i] == "ok") != el[i] { return Err(format!("route {} refused/accepted wrongly: {}", i, r[1 + i])); } }
+                    if r.len() != 3 { return Err("reply".into()); }
+                    for (i, x) in [&a, &b].iter().enumerate() { judge_construction(x, r[1 + i]).map_err(|e| format!("route {}: {}", i, e))?; }
                     return Ok(());
                 }
                 if !(el[0] && el[1]) { return Err("an ineligible route reached comparison".into()); }
                 let med = *s == "rfc4271";
                 let want = rfc_prefer(&a, &b, med);
+                if r.len() != 4 { return Err("reply".into()); }
                 let (ab, ba) = (parse_ord(r[0]).ok_or("reply")?, parse_ord(r[2]).ok_or("reply")?);
                 if ab != want { return Err(format!("cmp = {} but RFC 4271 9.1 elimination gives {}", r[0], ord(want))); }
                 if ba != ab.reverse() { return Err(format!("antisymmetry: cmp(a,b) = {}, cmp(b,a) = {}", r[0], r[2])); }
@@ -556,11 +619,14 @@ impl Prop for C10 {
             ["tri", s, a, b, c] => {
                 let rs = [parse_route(a).unwrap(), parse_route(b).unwrap(), parse_route(c).unwrap()];
                 if r[0] == "refused" {
-                    for i in 0..3 { if (r[1 + i] == "ok") != ref_eligible(&rs[i]) { return Err(format!("route {} refused/accepted wrongly", i)); } }
+                    if r.len() != 4 { return Err("reply".into()); }
+                    for i in 0..3 { judge_construction(&rs[i], r[1 + i]).map_err(|e| format!("route {}: {}", i, e))?; }
                     return Ok(());
                 }
+                if !rs.iter().all(ref_eligible) { return Err("an ineligible route reached comparison".into()); }
+                if r.len() != 3 { return Err("reply".into()); }
                 let med = *s == "rfc4271";
-                let o: Vec<Ordering> = r.iter().map(|x| parse_ord(x).unwrap()).collect();
+                let o: Vec<Ordering> = r.iter().map(|x| parse_ord(x).ok_or("reply")).collect::<Result<_, _>>()?;
                 let (ab, bc, ac) = (o[0], o[1], o[2]);
                 for (got, (x, y), nm) in [(ab, (0, 1), "ab"), (bc, (1, 2), "bc"), (ac, (0, 2), "ac")] {
                     let want = rfc_prefer(&rs[x], &rs[y], med);
@@ -621,14 +687,14 @@ pub fn mutate(a: &RouteSpec, rng: &mut Rng) -> RouteSpec {
     match rng.below(12) {
         0 => b.ibgp = !b.ibgp,
         1 => b.dop = if b.dop.is_some() { None } else { Some(100) },
-        2 => b.lp = Some(b.lp.unwrap_or(0).wrapping_add(1)),
+        2 => { b.lp = Some(b.lp.unwrap_or(0).wrapping_add(1)); b.bogus &= !1; }
         3 => if let Slot::Val(h) = &mut b.path { h.push(HopSpec::Asn(30)); },
         4 => if let Slot::Val(h) = &mut b.path { if let Some(x) = h.last_mut() { *x = HopSpec::Asn(77); } },
         5 => b.origin = Slot::Val(match b.origin { Slot::Val(o) => o.wrapping_add(1), _ => 0 }),
-        6 => b.med = Some(b.med.unwrap_or(0).wrapping_add(1)),
-        7 => b.oid = if b.oid.is_some() { None } else { Some(2) },
+        6 => { b.med = Some(b.med.unwrap_or(0).wrapping_add(1)); b.bogus &= !2; }
+        7 => { b.oid = if b.oid.is_some() { None } else { Some(2) }; b.bogus &= !4; }
         8 => b.bgpid = b.bgpid.wrapping_add(1),
-        9 => b.cl = Some((b.cl.unwrap_or(0) + 1) % 5),
+        9 => { b.cl = Some((b.cl.unwrap_or(0) + 1) % 5); b.bogus &= !8; }
         10 => { if rng.bool() { b.peer_v6 = !b.peer_v6; if !b.peer_v6 { b.peer &= 0xffffffff; } } else { b.peer = b.peer.wrapping_add(1); if !b.peer_v6 { b.peer &= 0xffffffff; } } }
         _ => b.extra = b.extra.wrapping_add(1),
     }
